@@ -143,6 +143,14 @@ impl Iterator for CatchGradualDifficulty {
     }
 
     fn nth(&mut self, n: usize) -> Option<Self::Item> {
+        // As per `Iterator::nth`, if fewer than `n + 1` items remain, all of
+        // them are consumed and `None` is returned.
+        if n >= self.len() {
+            while self.next().is_some() {}
+
+            return None;
+        }
+
         let skip_iter = self.diff_objects.iter().skip(self.idx.saturating_sub(1));
 
         let mut take = cmp::min(n, self.len().saturating_sub(1));
